@@ -161,7 +161,8 @@ Inductive cerr :=
 | EBadFunctionName (s : str)
 | ERecursionLimitReached (n : N)
 | EBadImport (s : str)
-| EAmbigousImport (s : str).
+| EAmbigousImport (s : str)
+| ESuperLimitReached.
 
 Record compiled := {
   p_bytecode : list N;
@@ -333,6 +334,7 @@ Record cstate := {
   cs_depth : list Z;                    (* head = scope_depth.last() *)
   cs_fn : nat;                          (* current_index.function *)
   cs_idx : list N;                      (* current_index.card_index.indices, last first *)
+  cs_fh : N;                            (* current_function_handle *)
   cs_debug : bool
 }.
 
@@ -373,68 +375,75 @@ Definition set_code c pc (s : cstate) : cstate :=
      cs_ids := cs_ids s; cs_names := cs_names s; cs_next_var := cs_next_var s; cs_trace := cs_trace s;
      cs_jump := cs_jump s; cs_ns := cs_ns s; cs_imports := cs_imports s; cs_locals := cs_locals s;
      cs_upvalues := cs_upvalues s; cs_depth := cs_depth s; cs_fn := cs_fn s; cs_idx := cs_idx s;
-     cs_debug := cs_debug s |}.
+     cs_fh := cs_fh s; cs_debug := cs_debug s |}.
 Definition set_trace t (s : cstate) : cstate :=
   {| cs_code := cs_code s; cs_pc := cs_pc s; cs_data := cs_data s; cs_dlen := cs_dlen s; cs_labels := cs_labels s;
      cs_ids := cs_ids s; cs_names := cs_names s; cs_next_var := cs_next_var s; cs_trace := t;
      cs_jump := cs_jump s; cs_ns := cs_ns s; cs_imports := cs_imports s; cs_locals := cs_locals s;
      cs_upvalues := cs_upvalues s; cs_depth := cs_depth s; cs_fn := cs_fn s; cs_idx := cs_idx s;
-     cs_debug := cs_debug s |}.
+     cs_fh := cs_fh s; cs_debug := cs_debug s |}.
 Definition set_data d n (s : cstate) : cstate :=
   {| cs_code := cs_code s; cs_pc := cs_pc s; cs_data := d; cs_dlen := n; cs_labels := cs_labels s;
      cs_ids := cs_ids s; cs_names := cs_names s; cs_next_var := cs_next_var s; cs_trace := cs_trace s;
      cs_jump := cs_jump s; cs_ns := cs_ns s; cs_imports := cs_imports s; cs_locals := cs_locals s;
      cs_upvalues := cs_upvalues s; cs_depth := cs_depth s; cs_fn := cs_fn s; cs_idx := cs_idx s;
-     cs_debug := cs_debug s |}.
+     cs_fh := cs_fh s; cs_debug := cs_debug s |}.
 Definition set_labels l (s : cstate) : cstate :=
   {| cs_code := cs_code s; cs_pc := cs_pc s; cs_data := cs_data s; cs_dlen := cs_dlen s; cs_labels := l;
      cs_ids := cs_ids s; cs_names := cs_names s; cs_next_var := cs_next_var s; cs_trace := cs_trace s;
      cs_jump := cs_jump s; cs_ns := cs_ns s; cs_imports := cs_imports s; cs_locals := cs_locals s;
      cs_upvalues := cs_upvalues s; cs_depth := cs_depth s; cs_fn := cs_fn s; cs_idx := cs_idx s;
-     cs_debug := cs_debug s |}.
+     cs_fh := cs_fh s; cs_debug := cs_debug s |}.
 Definition set_vars ids names nv (s : cstate) : cstate :=
   {| cs_code := cs_code s; cs_pc := cs_pc s; cs_data := cs_data s; cs_dlen := cs_dlen s; cs_labels := cs_labels s;
      cs_ids := ids; cs_names := names; cs_next_var := nv; cs_trace := cs_trace s;
      cs_jump := cs_jump s; cs_ns := cs_ns s; cs_imports := cs_imports s; cs_locals := cs_locals s;
      cs_upvalues := cs_upvalues s; cs_depth := cs_depth s; cs_fn := cs_fn s; cs_idx := cs_idx s;
-     cs_debug := cs_debug s |}.
+     cs_fh := cs_fh s; cs_debug := cs_debug s |}.
 Definition set_jump j (s : cstate) : cstate :=
   {| cs_code := cs_code s; cs_pc := cs_pc s; cs_data := cs_data s; cs_dlen := cs_dlen s; cs_labels := cs_labels s;
      cs_ids := cs_ids s; cs_names := cs_names s; cs_next_var := cs_next_var s; cs_trace := cs_trace s;
      cs_jump := j; cs_ns := cs_ns s; cs_imports := cs_imports s; cs_locals := cs_locals s;
      cs_upvalues := cs_upvalues s; cs_depth := cs_depth s; cs_fn := cs_fn s; cs_idx := cs_idx s;
-     cs_debug := cs_debug s |}.
+     cs_fh := cs_fh s; cs_debug := cs_debug s |}.
 Definition set_fctx ns imps (s : cstate) : cstate :=
   {| cs_code := cs_code s; cs_pc := cs_pc s; cs_data := cs_data s; cs_dlen := cs_dlen s; cs_labels := cs_labels s;
      cs_ids := cs_ids s; cs_names := cs_names s; cs_next_var := cs_next_var s; cs_trace := cs_trace s;
      cs_jump := cs_jump s; cs_ns := ns; cs_imports := imps; cs_locals := cs_locals s;
      cs_upvalues := cs_upvalues s; cs_depth := cs_depth s; cs_fn := cs_fn s; cs_idx := cs_idx s;
-     cs_debug := cs_debug s |}.
+     cs_fh := cs_fh s; cs_debug := cs_debug s |}.
 Definition set_scopes ls us ds (s : cstate) : cstate :=
   {| cs_code := cs_code s; cs_pc := cs_pc s; cs_data := cs_data s; cs_dlen := cs_dlen s; cs_labels := cs_labels s;
      cs_ids := cs_ids s; cs_names := cs_names s; cs_next_var := cs_next_var s; cs_trace := cs_trace s;
      cs_jump := cs_jump s; cs_ns := cs_ns s; cs_imports := cs_imports s; cs_locals := ls;
      cs_upvalues := us; cs_depth := ds; cs_fn := cs_fn s; cs_idx := cs_idx s;
-     cs_debug := cs_debug s |}.
+     cs_fh := cs_fh s; cs_debug := cs_debug s |}.
 Definition set_index f idx (s : cstate) : cstate :=
   {| cs_code := cs_code s; cs_pc := cs_pc s; cs_data := cs_data s; cs_dlen := cs_dlen s; cs_labels := cs_labels s;
      cs_ids := cs_ids s; cs_names := cs_names s; cs_next_var := cs_next_var s; cs_trace := cs_trace s;
      cs_jump := cs_jump s; cs_ns := cs_ns s; cs_imports := cs_imports s; cs_locals := cs_locals s;
      cs_upvalues := cs_upvalues s; cs_depth := cs_depth s; cs_fn := f; cs_idx := idx;
-     cs_debug := cs_debug s |}.
+     cs_fh := cs_fh s; cs_debug := cs_debug s |}.
+
+Definition set_fh h (s : cstate) : cstate :=
+  {| cs_code := cs_code s; cs_pc := cs_pc s; cs_data := cs_data s; cs_dlen := cs_dlen s; cs_labels := cs_labels s;
+     cs_ids := cs_ids s; cs_names := cs_names s; cs_next_var := cs_next_var s; cs_trace := cs_trace s;
+     cs_jump := cs_jump s; cs_ns := cs_ns s; cs_imports := cs_imports s; cs_locals := cs_locals s;
+     cs_upvalues := cs_upvalues s; cs_depth := cs_depth s; cs_fn := cs_fn s; cs_idx := cs_idx s;
+     cs_fh := h; cs_debug := cs_debug s |}.
 
 Definition init_state (debug : bool) : cstate :=
   {| cs_code := []; cs_pc := 0; cs_data := []; cs_dlen := 0; cs_labels := []; cs_ids := [];
      cs_names := []; cs_next_var := 0; cs_trace := []; cs_jump := []; cs_ns := []; cs_imports := [];
      cs_locals := [[]]; cs_upvalues := [[]]; cs_depth := [0%Z]; cs_fn := 0%nat; cs_idx := [];
-     cs_debug := debug |}.
+     cs_fh := 0; cs_debug := debug |}.
 
 (* ------------------------------------------------------------------ emission primitives *)
 Definition get_pc : M N := fun s => ROk (cs_pc s) s.
 (* `self.program.bytecode.len() as i32` *)
 Definition get_pc_i32 : M Z := fun s => ROk (u32_to_i32 (cs_pc s)) s.
 
-(* scope_end's `self.program.bytecode.push(op as u8)`: no trace entry *)
+(* appends an instruction (no trace entry) *)
 Definition push_raw (i : instr) : M unit :=
   fun s => ROk tt (set_code (i :: cs_code s) (cs_pc s + N.of_nat (instr_span i)) s).
 (* push_instruction + operands: trace.insert(bytecode.len() as u32, self.trace()) *)
@@ -480,15 +489,26 @@ Definition with_sub (i : N) (m : M unit) : M unit := push_sub i ;; m ;; pop_sub.
 Definition handle_from_bytes_m (bs : list N) : M N :=
   fun s => let h := handle_of_bytes bs in
            if (h =? 0) && cs_debug s then RPanic else ROk h s.
-(* CardIndex::as_handle *)
+(* Compiler::card_handle = current_function_handle + current_index.sub_handle() *)
 Definition index_handle : M N :=
   do s <- get ;;
   do sub <- handle_from_bytes_m (flat_map (fun i => le_bytes 4 (i mod two32)) (rev (cs_idx s))) ;;
-  ret (N.lxor (handle_from_u64 (N.of_nat (cs_fn s))) sub).
-(* labels.0.insert(handle, Label::new(u32::try_from(bytecode.len()).expect(..))).unwrap() *)
+  ret (N.lxor (cs_fh s) sub).
+(* labels.0.insert(handle, Label::new(u32::try_from(bytecode.len()).expect(..))).unwrap():
+   function and closure labels (overwrites; key 0 = Err(InvalidHandle) -> unwrap panics) *)
 Definition label_insert_here (h : N) : M unit :=
   fun s => if (two32 <=? cs_pc s) || (h =? 0) then RPanic
            else ROk tt (set_labels (nm_insert h (cs_pc s) (cs_labels s)) s).
+(* process_card: labels.0.entry(handle).or_insert_with(|| Label::new(card_byte_index)) - the first
+   label of a handle stays.  The u32::try_from(..).expect(..) precedes it.  entry(0) finds an empty
+   slot, sees "key equal" and hands out an Occupied entry: nothing is recorded. *)
+Definition label_entry_here (h : N) : M unit :=
+  fun s => if two32 <=? cs_pc s then RPanic
+           else if h =? 0 then ROk tt s
+           else match nm_find h (cs_labels s) with
+                | Some _ => ROk tt s
+                | None => ROk tt (set_labels (nm_insert h (cs_pc s) (cs_labels s)) s)
+                end.
 
 (* push_str: offset = data.len() as u32; data += len:u32 ++ bytes *)
 Definition push_string (mk : N -> instr) (st : str) : M unit :=
@@ -517,10 +537,11 @@ Fixpoint pop_locals (rls : list local) (d : Z) : list local * list instr :=
         (r', (if l_captured l then ICloseUpvalue else IPop) :: is)
       else (rls, [])
   end.
+(* each with `trace.insert(bytecode.len(), trace.clone())`, trace = self.trace() of scope_end's caller *)
 Fixpoint push_raws (is : list instr) : M unit :=
   match is with
   | [] => ret tt
-  | i :: r => push_raw i ;; push_raws r
+  | i :: r => push_instr i ;; push_raws r
   end.
 Definition scope_end : M unit :=
   fun s =>
@@ -643,10 +664,9 @@ Definition global_id (name : str) : M N :=
 (* ------------------------------------------------------------------ function resolution *)
 Definition jt_get (name : str) : M (option fmeta) := fun s => ROk (sm_find name (cs_jump s)) s.
 
-(* namespace.iter().take(namespace.len() - super_depth): usize underflow panics with overflow checks;
-   without them it wraps and take(huge) keeps the whole namespace *)
+(* namespace.iter().take(namespace.len().checked_sub(super_depth).ok_or(SuperLimitReached)?) *)
 Definition take_ns (ns : list str) (cnt : nat) (debug : bool) : option (list str) :=
-  if Nat.ltb (length ns) cnt then (if debug then None else Some ns)
+  if Nat.ltb (length ns) cnt then None
   else Some (firstn (length ns - cnt) ns).
 
 Definition resolve_function (fname : str) : M fmeta :=
@@ -666,7 +686,7 @@ Definition resolve_function (fname : str) : M fmeta :=
             | None => diverge
             | Some (cnt, suffix) =>
                 match take_ns ns cnt (cs_debug s) with
-                | None => panic
+                | None => error ESuperLimitReached
                 | Some ns' =>
                     ret (sm_find (ns_prefix ns' ++ match suffix with Some x => x | None => alias end) jt)
                 end
@@ -687,7 +707,7 @@ Definition resolve_function (fname : str) : M fmeta :=
                 | None => diverge
                 | Some (cnt, sx) =>
                     match take_ns ns cnt (cs_debug s) with
-                    | None => panic
+                    | None => error ESuperLimitReached
                     | Some ns' =>
                         ret (sm_find (ns_prefix ns' ++ alias ++ c_dot :: match sx with Some x => x | None => suffix end) jt)
                     end
@@ -707,7 +727,7 @@ Definition encode_if_then (skip : Z -> instr) (body : M unit) : M unit :=
   body ;;
   patch_jump_here p.
 
-Definition card_label : M unit := do h <- index_handle ;; label_insert_here h.
+Definition card_label : M unit := do h <- index_handle ;; label_entry_here h.
 
 Fixpoint read_props (props : list str) : M unit :=
   match props with
@@ -930,8 +950,9 @@ Fixpoint process_card (c : card) {struct c} : M unit :=
       with_sub 0 (process_card a) ;; with_sub 1 (process_card b) ;; with_sub 2 (process_card c) ;;
       push_instr ISetProperty
   | CDynamicCall f args =>
-      subexpr args 0 ;;
-      with_sub (N.of_nat (length args)) (process_card f) ;;
+      (* children numbered like Card::get_child: the function is child 0, the arguments follow *)
+      subexpr args 1 ;;
+      with_sub 0 (process_card f) ;;
       push_instr ICallFunction
   | CScalarNil => push_instr IScalarNil
   | CAbort => push_instr IExit
@@ -953,7 +974,7 @@ Definition process_function (f : function_ir) : M unit :=
 
 Definition add_function (f : function_ir) : M unit :=
   do s <- get ;;
-  match sm_find (fi_name f) (cs_jump s) with
+  match sm_find (fi_full_name f) (cs_jump s) with
   | Some _ => error (EDuplicateName (fi_name f))
   | None =>
       put (set_jump (sm_insert (fi_full_name f)
@@ -968,8 +989,11 @@ Fixpoint stage_1 (fs : list function_ir) : M unit :=
 
 Definition set_index_m (f : nat) (idx : list N) : M unit := fun s => ROk tt (set_index f idx s).
 
+Definition set_fh_m (h : N) : M unit := fun s => ROk tt (set_fh h s).
+
 Definition compile_main (f : function_ir) : M unit :=
   set_index_m (fi_index f) [0] ;;
+  set_fh_m (fi_handle f) ;;
   scope_begin ;;
   process_function f ;;
   set_index_m (fi_index f) [N.of_nat (length (fi_cards f)) mod two32] ;;
@@ -978,6 +1002,7 @@ Definition compile_main (f : function_ir) : M unit :=
 
 Definition compile_other (f : function_ir) : M unit :=
   set_index_m (fi_index f) [] ;;
+  set_fh_m (fi_handle f) ;;
   label_insert_here (fi_handle f) ;;
   scope_begin ;;
   process_function f ;;
